@@ -166,7 +166,8 @@ def all_bodies(thorough):
         for e in encs:
             out.append({"framing": "sse", "content": c, "enc": e})
     out.append({"framing": "sse", "content": "notifs+response", "enc": "mixed"})
-    # events WITHOUT data ahead of the messages (a typed keep-alive, a comment-only block): nothing to dispatch, and the
+    # events WITHOUT data ahead of every message (typed keep-alives, comment-only blocks, a data-less "event: message"), written
+    # by the specification's own encoder (sse_encode_noisy; C11_dataless_events_change_nothing): nothing to dispatch, and the
     # event type they set must not stick to the events that follow
     for c in ("response", "notifs+response"):
         for e in (list(ENCS) if thorough else ENCS_SHORT):
@@ -256,6 +257,21 @@ def sx_events(evs):
     return "(" + " ".join("(" + ch(e) + " " + sx(m) + ")" for e, m in evs) + ")"
 
 
+NOISES = [[0, "ping"], [1, " keep-alive"], [0, "message"], [0, "x y"], [1, ""]]
+
+
+def sx_noisy_events(evs):
+    """the same events, each preceded by data-less events (a typed keep-alive, a comment-only block, a data-less "event: message")"""
+    def ch(e):
+        before, after, pos, space, crlf, blanks = e
+        return sx([[[k, t] for k, t in before], [[k, t] for k, t in after], pos, space, crlf, blanks])
+    out = []
+    for i, (e, m) in enumerate(evs):
+        ns = [NOISES[(i + j) % len(NOISES)] for j in range(1 + i % 3)]
+        out.append("(" + sx([[k, t] for k, t in ns]) + " " + ch(e) + " " + sx(m) + ")")
+    return "(" + " ".join(out) + ")"
+
+
 def finish_step(st, encoded):
     """Computes the bytes of the body."""
     ans = st["ans"]
@@ -274,8 +290,6 @@ def finish_step(st, encoded):
         raw = RAW[fr]
     elif fr in ("sse", "sse-array-event"):
         raw = encoded.encode()
-        if b.get("noise") == "dataless-events-first":
-            raw = b"event: ping\n\n: only a comment\n\nevent:keepalive\r\nid: 7\r\n\r\n" + raw
     else:
         raise lib.HarnessError(f"unknown framing {fr}")
     dmg = b.get("damage")
@@ -303,8 +317,10 @@ def materialise(scenarios, drv):
         for i, st in enumerate(sc["steps"]):
             plan_step(i, st)
     todo = [st for sc in scenarios for st in sc["steps"] if st["_encode"] is not None]
-    enc = drv.run([call(13, sx_events(st["_encode"])) for st in todo])
-    adm = drv.run([call(14, sx_events(st["_encode"])) for st in todo if st["ans"]["body"]["framing"] == "sse"])
+    noisy = lambda st: st["ans"]["body"].get("noise") == "dataless-events-first"      # noqa: E731
+    enc = drv.run([call(17, sx_noisy_events(st["_encode"])) if noisy(st) else call(13, sx_events(st["_encode"])) for st in todo])
+    adm = drv.run([call(18, sx_noisy_events(st["_encode"])) if noisy(st) else call(14, sx_events(st["_encode"]))
+                   for st in todo if st["ans"]["body"]["framing"] == "sse"])
     if not all(adm):
         raise lib.HarnessError("generator produced an SSE event outside the encoder's admissible domain")
     texts = {id(st): lib.as_str(t) for st, t in zip(todo, enc)}
